@@ -81,6 +81,10 @@ func realMain() {
 		cfg.StopAtFirst = !*all
 		res := RunHarness(ld, spec, cfg, *workers, *budget)
 		printResult(res)
+	case "instr":
+		// development aid: build the instrumented goit binary into the given directory and print its path
+		out, err := buildInstrumented("/repo", "/verif", os.Args[2])
+		fmt.Println(out, err)
 	case "check":
 		os.Exit(cmdCheck(os.Args[2:]))
 	case "replay":
